@@ -420,18 +420,19 @@ class SimPool:
 
 # ------------------------------------------------------------------------------------------------
 class SimSimpleQueue:
-    """multiprocessing.SimpleQueue: a locked pipe without feeder thread."""
+    """multiprocessing.SimpleQueue: a pipe plus a reader lock and a writer lock, no feeder thread.
+    put() pickles and writes synchronously under the writer lock (same os.write semantics as
+    Connection.send: not atomic above PIPE_BUF, blocks on a full pipe); get() takes the reader lock and
+    calls recv() without deadline."""
 
     def __init__(self, *, ctx=None):
         w = simmp._w()
         self.world = w
         self.sid = w.n_queues
         w.n_queues += 1
-        self.items = deque()
-        self.used = 0
+        self._reader, self._writer = sim_pipe(duplex=False)
         self.rlock = None
         self.wlock = None
-        self._reader = simmp._ReaderShim(w, lambda: bool(self.items), "sq%d" % self.sid)
 
     def __deepcopy__(self, memo):
         return self
@@ -439,16 +440,15 @@ class SimSimpleQueue:
     def put(self, obj):
         w = self.world
         me = w.current_proc()
-        data = pickle.dumps(obj, protocol=pickle.HIGHEST_PROTOCOL)
-        n = len(data) + 4
         w.seam(Op("sq-put-lock", "sq%d" % self.sid, can_run=lambda: self.wlock is None))
         self.wlock = me
         me.extra_locks = getattr(me, "extra_locks", 0) + 1
-        w.seam(Op("sq-put-write", "sq%d %dB" % (self.sid, n), can_run=lambda: self.used == 0 or self.used + n <= w.pipe_capacity))
-        self.items.append(data)
-        self.used += n
-        self.wlock = None
-        me.extra_locks -= 1
+        try:
+            self._writer.send(obj)
+        finally:
+            if not getattr(me, "dead", False):
+                self.wlock = None
+                me.extra_locks -= 1
 
     def get(self):
         w = self.world
@@ -456,16 +456,15 @@ class SimSimpleQueue:
         w.seam(Op("sq-get-lock", "sq%d" % self.sid, can_run=lambda: self.rlock is None))
         self.rlock = me
         me.extra_locks = getattr(me, "extra_locks", 0) + 1
-        w.seam(Op("sq-get-recv", "sq%d" % self.sid, can_run=lambda: bool(self.items)))
-        data = self.items.popleft()
-        self.used -= len(data) + 4
-        self.rlock = None
-        me.extra_locks -= 1
-        return pickle.loads(data)
+        try:
+            return self._reader.recv()
+        finally:
+            if not getattr(me, "dead", False):
+                self.rlock = None
+                me.extra_locks -= 1
 
     def empty(self):
-        self.world.seam(Op("sq-empty", "sq%d" % self.sid))
-        return not self.items
+        return not self._reader.poll(0)
 
     def close(self):
         pass
